@@ -378,10 +378,13 @@ func EvalOne(ctx context.Context, s *eval.State, what string, out io.Writer, opt
 	errs []string,
 	formatted string,
 ) {
+	savedOut := s.Out
 	if !options.PanicOk {
 		defer func() {
 			if r := recover(); r != nil {
 				panicked = true
+				// A panic inside a function call leaves s.Out pointing at that call's capture buffer.
+				s.Out = savedOut
 				log.Critf("Caught panic: %v", r)
 				if log.LogDebug() {
 					log.Debugf("Dumping stack trace")
